@@ -175,7 +175,14 @@ def classify_ubi(c):
 def check_history(c):
     kw = kwargs_of(c)
     obj = guard(Skein, c["Nb"], c["No"], **kw)
+    sNb = {256: 512, 512: 1024, 1024: 256}[c["Nb"]] if c.get("sib") == 1 else c["Nb"]
+    sNo = c["No"] if c.get("sib") == 1 else c["No"] + 8
+    sib = guard(Skein, sNb, sNo) if c.get("sib") else None    # another configuration, built after obj, used between its calls
     for i, (M, L) in enumerate(c["msgs"]):
+        if sib is not None and i % 2 == 1:
+            sm = bytes(range(i, i + 40))
+            if guard(sib, sm) != R.skein(sNb, sNo, sm):
+                raise Violation("skein:reused-object:sibling-object!=spec", None, None)
         if L == "update":
             attempt(obj.update, M)        # a bare UBI step on the object's chaining value: not judged, the calls after it are
             continue
@@ -189,8 +196,8 @@ def check_history(c):
 
 
 def history_strategy(tier):
-    def build(Nb, No, key, tree, msgs):
-        c = {"Nb": Nb, "No": No, "msgs": tuple((M, "update" if lm == 8 else 8 * len(M) + 3 if lm == 9 else None if lm == 0 or not M or tree else 8 * len(M) - lm)
+    def build(Nb, No, key, tree, msgs, sib=0):
+        c = {"Nb": Nb, "No": No, "sib": sib, "msgs": tuple((M, "update" if lm == 8 else 8 * len(M) + 3 if lm == 9 else None if lm == 0 or not M or tree else 8 * len(M) - lm)
                                                for M, lm in msgs)}
         if key is not None:
             c["key"] = key
@@ -201,7 +208,7 @@ def history_strategy(tier):
             c["msgs"] += ((b"after", None),)
         return c
     return st.builds(build, st.sampled_from([256, 512, 1024]), st.sampled_from([8, 256, 512]), gen.pick((2, st.none()), (1, gen.blob(7))), st.booleans(),
-                     st.lists(st.tuples(gen.blob_of(gen.uint(0, 150)), gen.uint(0, 9)), min_size=2, max_size=4))
+                     st.lists(st.tuples(gen.blob_of(gen.uint(0, 150)), gen.uint(0, 9)), min_size=2, max_size=4), st.sampled_from([0, 1, 2]))
 
 
 FACETS = [
@@ -222,7 +229,8 @@ FACETS = [
                "just below 2^96 where p + |M| >= 2^96 must be refused"),
     Facet("reused-object", check_history, strategy=history_strategy, budget={"quick": 1000, "thorough": 10000}, shards={"quick": 16, "thorough": 32},
           nontrivial=lambda c: True, classify=lambda c: ("Nb=%d" % c["Nb"], "tree" if c.get("Ym") else "flat",
-                                                        "has unjudged call" if any(L == "update" or (L is not None and L > 8 * len(M)) for M, L in c["msgs"]) else "all calls valid"),
+                                                        "has unjudged call" if any(L == "update" or (L is not None and L > 8 * len(M)) for M, L in c["msgs"]) else "all calls valid",
+                                                        ["no sibling", "sibling with another state size", "sibling with another output size"][c.get("sib", 0)]),
           rule="2..4 messages hashed one after the other by ONE Skein object (flat and tree)"),
 ]
 WEIGHT = {"hash-length-sweep": 6, "hash-mac-random": 6, "tree": 8}
